@@ -281,6 +281,23 @@ func (ae *AEval) Eval(t *Term, cell Cell, depth int) AVal {
 			return AVal{Kind: "nonnil"}
 		}
 	case "extract":
+		// one component of a tuple-returning module call
+		if len(t.Args) == 1 && t.Args[0].Op == "call" {
+			ct := t.Args[0]
+			if c, ok := ct.Val.(*ssa.Call); ok {
+				if f := c.Call.StaticCallee(); f != nil && ae.W.InModule(f) && f.Blocks != nil && depth < 4 {
+					var args []AVal
+					for _, a := range ct.Args {
+						args = append(args, ae.Eval(a, cell, depth))
+					}
+					rs := ae.CallResults(f, args, depth+1)
+					var k int
+					if _, err := fmt.Sscanf(t.Sym, "%d", &k); err == nil && k >= 0 && k < len(rs) {
+						return rs[k]
+					}
+				}
+			}
+		}
 	case "len":
 	}
 	if t.Typ != nil {
